@@ -486,6 +486,8 @@ class NormFunc(FuncInfo):
 
 
 def normalised(repo, fi):
+    if isinstance(fi, NormFunc):
+        return fi
     cache = repo.__dict__.setdefault('_norm_cache', {})
     key = (fi.rel, fi.qualname)
     if key not in cache or cache[key].original is not fi:
